@@ -155,11 +155,11 @@ let do_hist (text : z list) (items : (string * string * string) list) : string =
   let fresh = show_obs (parse_whole code cfix fuel text) in
   let p = List.fold_left (fun p (h, c, a) ->
       let ps = pieces (decode h) (parse_cuts c) in
-      let ps = if a = "a" then ps else mark_last ps in
+      let ps = if a = "a" || a = "A" then ps else mark_last ps in
       snd (deliver_seq code (p_reset fuel p) ps)) (p_init fuel) items in
   let after = show_obs (parse_after code cfix fuel p text) in
   let same = if reset p.ps_lex = init_lstate then "same" else "diff" in
-  "F=" ^ fresh ^ " ;; H=" ^ after ^ " ;; S=" ^ same
+  "F=" ^ fresh ^ " ;; H=" ^ after ^ " ;; S=" ^ same ^ " ;; A=same"
 
 (* the REPL reader: lines (each with its newline) are delivered one by one until the parser no longer asks for more *)
 let split_lines (text : z list) : z list list =
@@ -197,6 +197,12 @@ let () =
          Printf.printf "%s\t%s\t-\n" id r
        | ["chunk"; t; c] ->
          let (m, sp) = do_chunk (decode t) (parse_cuts c) in
+         Printf.printf "%s\t%s\t%s\n" id m sp
+       | ["queue"; t; c; sc] ->
+         (* pieces that are only queued reach the parser together with the next piece that is parsed *)
+         let cuts = parse_cuts c in
+         let cuts' = List.filteri (fun i _ -> i < String.length sc && sc.[i] = '1') cuts in
+         let (m, sp) = do_chunk (decode t) cuts' in
          Printf.printf "%s\t%s\t%s\n" id m sp
        | ["repl"; t] -> Printf.printf "%s\t%s\t-\n" id (do_repl (decode t))
        | "hist" :: t :: _ :: rest ->
